@@ -283,7 +283,8 @@ class Effects(object):
                             if p in t.func.params or p in t.func.kwonly:
                                 self._edge(('var', t.func.qualname, p), self.sources(a, fn))
                             elif t.func.kwarg:
-                                self._edge(('var', t.func.qualname, t.func.kwarg), self.sources(a, fn))
+                                # a keyword that no parameter takes becomes an *element* of the fresh **kwargs dict
+                                self._hold(('var', t.func.qualname, t.func.kwarg), self.sources(a, fn))
                         for kx in kwstars:
                             srcs = self.sources(kx, fn)
                             for p in t.func.params + t.func.kwonly:
